@@ -110,7 +110,7 @@ def common_shrinks(scn):
     for fl in drop_each(faults):
         yield with_path(scn, ["faults"], fl)
     o = scn["options"]
-    for key in ("solve_twice", "reload_phase", "sibling", "device_restored", "device_moved", "device_derived", "entry"):
+    for key in ("solve_twice", "reload_phase", "sibling", "device_restored", "device_moved", "device_derived", "entry", "device_used_before", "options_prior_use"):
         if scn.get(key):
             s_ = copy.deepcopy(scn)
             s_.pop(key)
@@ -182,6 +182,33 @@ def physics_run(scn, checkers, nontrivial, sig, extra=None, post=None, **kw):
     """
     from ..engine import run_scenario as _run
 
+    prior = scn.get("options_prior_use")
+    sim0 = None
+    if prior and "options_as_is" not in kw and "options_from" not in kw:
+        # option life cycle: the caller's SolverOptions object was used for an earlier, short run on a
+        # variant of the device (a bare film relaxed first, the same device, ...) and is handed to the
+        # run under test as it is, apart from the two fields the caller sets back; the oracles keep the
+        # declared option values
+        s0 = copy.deepcopy(scn)
+        for key in ("options_prior_use", "solve_twice", "sibling", "device_history", "device_moved", "device_restored", "device_derived", "device_used_before", "entry", "psi_init"):
+            s0.pop(key, None)
+        s0["faults"] = []
+        s0["observer"] = {"output": None}
+        s0["options"]["solve_time"] = s0["options"]["dt_init"] * prior["steps"]
+        s0["options"]["skip_time"] = 0.0
+        if prior["variant"] == "no-terminals":
+            s0["device"]["terminals"] = []
+            s0["drive"]["currents"] = None
+        elif prior["variant"] == "no-holes":
+            s0["device"]["holes"] = []
+        sim0, h0 = _run(s0)
+        if h0.outcome.startswith("rejected") or getattr(sim0, "options", None) is None:
+            sim0.cleanup()
+            raise Discard(f"prior use of the options did not run: {h0.outcome}")
+        opts = sim0.options
+        opts.solve_time = scn["options"]["solve_time"]
+        opts.skip_time = scn["options"].get("skip_time", 0.0)
+        kw["options_as_is"] = opts
     sim, h = _run(scn, checkers=checkers, **kw)
     try:
         V = list(sim.violations)
@@ -218,6 +245,8 @@ def physics_run(scn, checkers, nontrivial, sig, extra=None, post=None, **kw):
         return summarize(scn, h, Vd, nontrivial(h, checkers), base_sig + tuple(sig(h) if sig else ()), extra=extra(h, checkers) if extra else None)
     finally:
         sim.cleanup()
+        if sim0 is not None:
+            sim0.cleanup()
 
 
 def physics_shrinks(scn):
